@@ -65,6 +65,25 @@ WMerge(h, d, left, right) ==
                  /\ issued' = [issued EXCEPT ![h] = @ \cup {r.log[i].ret : i \in {j \in 1..Len(r.log) : r.log[j].op = "next_id"}}]
                  /\ ev' = [op |-> "merge", h |-> h, src |-> d, left |-> left, right |-> right, ok |-> r.ok, m |-> r.m, missed |-> r.missed]
 
+\* deploy_to(): a script is the textual-order fold of the five mutators with a variable table that belongs to ONE
+\* deployment (SodgCore!DeployOp); each variable takes one next_id() result at its first mention.  The programs are a
+\* named family (every command kind, a variable used twice, two variables, a literal next to a variable):
+LitR(i) == [k |-> "lit", id |-> i]
+VarR(n) == [k |-> "var", name |-> n]
+Progs == {<<[c |-> "ADD", v |-> VarR("x")]>>, <<[c |-> "ADD", v |-> VarR("x")], [c |-> "ADD", v |-> VarR("y")]>>}
+         \cup {<<[c |-> "ADD", v |-> VarR("x")], [c |-> "PUT", v |-> VarR("x"), d |-> d]>> : d \in Vals}
+         \cup {<<[c |-> "ADD", v |-> VarR("x")], [c |-> "BIND", v1 |-> LitR(i), v2 |-> VarR("x"), a |-> a]>> : i \in Ids, a \in Labels}
+         \cup {<<[c |-> "ADD", v |-> VarR("x")], [c |-> "BIND", v1 |-> VarR("x"), v2 |-> LitR(i), a |-> a]>> : i \in Ids, a \in Labels}
+         \cup {<<[c |-> "ADD", v |-> LitR(i)], [c |-> "ADD", v |-> VarR("x")]>> : i \in Ids}
+TabIds(tab) == {tab[n] : n \in DOMAIN tab}
+WDeploy(h, prog) ==
+              /\ Live(h)
+              /\ LET r == DeployOp(gs[h], prog) IN
+                 /\ r.lim
+                 /\ gs' = [gs EXCEPT ![h] = r.g]
+                 /\ issued' = [issued EXCEPT ![h] = @ \cup TabIds(r.tab)]
+                 /\ ev' = [op |-> "deploy", h |-> h, prog |-> prog, tab |-> r.tab]
+
 WNext == \/ \E h \in Hs, v \in Ids : WAdd(h, v) \/ WData(h, v)
          \/ \E h \in Hs, v \in Ids, d \in Vals : WPut(h, v, d)
          \/ \E h \in Hs, v1, v2 \in Ids, a \in Labels : WBind(h, v1, v2, a)
@@ -72,6 +91,7 @@ WNext == \/ \E h \in Hs, v \in Ids : WAdd(h, v) \/ WData(h, v)
          \/ \E h, d \in Hs : WClone(h, d) \/ WReload(h, d)
          \/ \E h, d \in Hs, v \in Ids, lt \in BOOLEAN : WSlice(h, d, v, lt)
          \/ \E h, d \in Hs, l, r \in Ids : WMerge(h, d, l, r)
+         \/ \E h \in Hs, prog \in Progs : WDeploy(h, prog)
 WSpec == WInit /\ [][WNext]_wvars
 
 (* ------------------------------ properties ---------------------------------- *)
@@ -84,7 +104,15 @@ FreshStep == (ev'.op = "next_id") =>
 FreshMerge == (ev'.op = "merge") =>
                 (LET new == gs'[ev'.h].present \ gs[ev'.h].present IN
                  new \cap issued[ev'.h] = {} /\ new \subseteq issued'[ev'.h])
-FreshIds == [][FreshStep /\ FreshMerge]_wvars
+\* ... and so do script variables: each stands for an id that was neither present nor issued, two variables of one script
+\* never share an id, and the ids are booked as issued (C05's last sentence; C14: one next_id() result per variable)
+FreshDeploy == (ev'.op = "deploy") =>
+                (LET tab == ev'.tab IN
+                 /\ TabIds(tab) \cap (gs[ev'.h].present \cup issued[ev'.h]) = {}
+                 /\ \A n1, n2 \in DOMAIN tab : n1 # n2 => tab[n1] # tab[n2]
+                 /\ TabIds(tab) \subseteq issued'[ev'.h]
+                 /\ gs[ev'.h].present \subseteq gs'[ev'.h].present)
+FreshIds == [][FreshStep /\ FreshMerge /\ FreshDeploy]_wvars
 \* the allocator position is above everything issued (why the freshness holds)
 IssuedBelowPos == \A h \in Hs : Live(h) => \A i \in issued[h] : i < gs[h].nextv
 
